@@ -214,3 +214,23 @@ package fstree
 //@   callee fstree.parseCombinedPrefix
 //@   pureeffect
 //@   requires [whole_prefix_below_the_fill_mark_or_buffer_just_refilled] samearray(a0, buf) && (sliceoff(a0, buf) == 0 || sliceoff(a0, buf) + combinedDataOff <= n)
+
+// ---- C10 (ReadObject into a caller's buffer): what _readObject pre-read or decoded in
+// memory is delivered in full: the part that does not fit the caller's buffer is put in
+// front of the returned stream (also when there is no file stream left at all).
+//@ ghost pred preReadLen() int
+//@ ghost pred remainderKeptInFrontOfTheStream() bool
+//@ callrule c10_preread_data in (*FSTree).readObject
+//@   property C10
+//@   callee (*fstree.FSTree)._readObject
+//@   pureeffect
+//@   defines len(res0) == preReadLen()
+//@ callrule c10_remainder_goes_in_front_of_the_stream in (*FSTree).readObject
+//@   property C10
+//@   callee fstree.newPrefixedReadSeekCloser
+//@   pureeffect
+//@   requires [exactly_the_part_that_did_not_fit] samearray(a0, initial) && sliceoff(a0, initial) == n && len(a0) == len(initial) - n
+//@   defines remainderKeptInFrontOfTheStream()
+//@ func (*FSTree).readObject
+//@   property C10
+//@   ensures [nothing_pre_read_is_lost] err == nil && res0 < preReadLen() ==> remainderKeptInFrontOfTheStream()
